@@ -18,9 +18,18 @@ import smt  # noqa: E402
 from common import Finding, REPO  # noqa: E402
 
 
-def struct_fields(name):
-    """declared field order of a struct of src/lib.rs (MIR shows positions only)"""
-    src = open(os.path.join(REPO, "src", "lib.rs")).read()
+def _inner_vec(t):
+    """iter(deref(v)) -> v"""
+    if isinstance(t, tuple) and t[0] == "call" and t[1].startswith("core::slice::<impl [") and t[1].endswith("::iter"):
+        t = t[2][0]
+    if isinstance(t, tuple) and t[0] == "call" and t[1].endswith("as Deref>::deref"):
+        t = t[2][0]
+    return t
+
+
+def struct_fields(name, file="lib.rs"):
+    """declared field order of a struct (MIR shows positions only)"""
+    src = open(os.path.join(REPO, "src", file)).read()
     m = re.search(r"struct " + name + r"\b[^{;]*\{(.*?)\n\}", src, re.S)
     if not m:
         return None
@@ -46,7 +55,7 @@ def strip_iter(t, elem):
 class Iter:
     """one iteration of a `while let Some((node, reach)) = queue.pop()` loop"""
 
-    def __init__(self, fns, key, name):
+    def __init__(self, fns, key, name, unroll=3):
         self.name = name
         self.fn = mir.Fn(name, fns[key])
         pops = [b for b, (_, t, _) in self.fn.blocks.items() if "Vec::<(&Node, f64)>::pop(" in t]
@@ -58,7 +67,7 @@ class Iter:
         term = self.fn.blocks[self.pop][1]
         self.item_local = re.match(r"(_\d+) = ", term).group(1)
         nxt = re.search(r"return: (bb\d+)", term).group(1)
-        ex = mir.Executor(self.fn, stops={self.pop: "continue"}, max_visits=3, max_paths=20000)
+        ex = mir.Executor(self.fn, stops={self.pop: "continue"}, max_visits=unroll, max_paths=200000)
         self.paths = ex.run(entry=nxt)
         self.unknown = sorted(set(ex.unknown))
         item = ("field", ("downcast", ("sym", f"{name}:{self.item_local}"), "Some"), 0)
@@ -117,6 +126,7 @@ def run(prop, tier, mir_text=None):
         return res
     structural, queries = [], []
     n_paths = 0
+    UNROLL = 5 if tier == "thorough" else 3     # inner loop heads visited at most UNROLL times: <= UNROLL-1 children per node
 
     def node_parts(it):
         ch = ("field", ("downcast", it.node, "Chance"), 0)
@@ -154,7 +164,7 @@ def run(prop, tier, mir_text=None):
             why.append(f"{len(els)} outcomes, {len(ps_)} scheduled")
         structural.append((f"ev-{tag}-chance", "a chance node schedules every outcome with weight probability x reach (probabilities of the node's chance infoset)", ok, "; ".join(why)))
 
-    def weighted_arm(tag, it, p, probs_src_ok, desc):
+    def weighted_arm(tag, it, p, probs_src_ok, desc, strict=False):
         """opponent / acting-player arm: every action with positive probability scheduled with probability x reach"""
         np_ = node_parts(it)
         src_p, src_k = it.zip_sources(p)
@@ -209,12 +219,15 @@ def run(prop, tier, mir_text=None):
             x, _ = ctx.tr(sub(pr), "F")
             pos = f"(fp.gt {x} ((_ to_fp 11 53) RNE 0.0))"
             if repr(kid) in pushed_kids:
-                pass    # scheduling a zero-probability action adds 0 x value: harmless, not constrained
+                # in `expected` a zero-probability action adds 0 x value (harmless, not constrained); in the
+                # best-response search it would create infoset nodes with reach 0 and a 0/0 value
+                if strict:
+                    queries.append((f"ev-{tag}-only-positive", "an opponent action is followed only if its probability is positive (every f64): unreachable infosets must not be collected", ctx, axioms + conds + [f"(not {pos})"]))
             else:
                 queries.append((f"ev-{tag}-skip", "an action is left out only if its probability is not positive (every f64)", ctx, axioms + conds + [pos]))
 
     # ------------------------------------------------------------------ expected
-    it = Iter(fns, "expected", "expected")
+    it = Iter(fns, "expected", "expected", UNROLL)
     if not it.ok or it.unknown:
         res["infra"].append(f"expected: {it.why} {it.unknown[:3]}")
     else:
@@ -243,7 +256,7 @@ def run(prop, tier, mir_text=None):
         structural.append(("ev-exp-init", "the sum starts at 0 with the root scheduled at reach 1", pre_ok, f"{len(it.pre)} paths to the loop head"))
 
     # ------------------------------------------------------------------ next_infoset_search
-    it = Iter(fns, "next_infoset_search", "nis")
+    it = Iter(fns, "next_infoset_search", "nis", UNROLL)
     if not it.ok or it.unknown:
         res["infra"].append(f"next_infoset_search: {it.why} {it.unknown[:3]}")
     else:
@@ -292,12 +305,12 @@ def run(prop, tier, mir_text=None):
                 else:
                     def src_ok(src, np2):
                         return src == ("call", "<impl AsRef<[f64]> as AsRef<[f64]>>::as_ref", [("index", ("sym", "nis:_5"), np2["p_info"])])
-                    weighted_arm("nis-opponent", it, p, src_ok, "an opponent node schedules its actions with weight (opponent's probability at the node's infoset) x reach")
+                    weighted_arm("nis-opponent", it, p, src_ok, "an opponent node schedules its actions with weight (opponent's probability at the node's infoset) x reach", strict=True)
         pre_ok = len(it.pre) == 1 and it.pre[0].env.get(acc) == ("const", "0f64") and any(c[0] == "Vec::<(&Node, f64)>::push" and c[1][1] == ("tuple", [("sym", "nis:_1"), ("const", "1f64")]) for c in it.pre[0].calls)
         structural.append(("ev-nis-init", "the value starts at 0 with the start node scheduled at reach 1", pre_ok, f"{len(it.pre)} paths to the loop head"))
 
     # ------------------------------------------------------------------ optimal_deviations, first loop
-    it = Iter(fns, "optimal_deviations", "od")
+    it = Iter(fns, "optimal_deviations", "od", UNROLL)
     if not it.ok or it.unknown:
         res["infra"].append(f"optimal_deviations: {it.why} {it.unknown[:3]}")
     else:
@@ -347,7 +360,146 @@ def run(prop, tier, mir_text=None):
                 else:
                     def src_ok(src, np2):
                         return src == ("call", "<impl AsRef<[f64]> as AsRef<[f64]>>::as_ref", [("index", ("sym", "od:_4"), np2["p_info"])])
-                    weighted_arm("od-opponent", it, p, src_ok, "an opponent node schedules its actions with weight (opponent's probability at the node's infoset) x reach")
+                    weighted_arm("od-opponent", it, p, src_ok, "an opponent node schedules its actions with weight (opponent's probability at the node's infoset) x reach", strict=True)
+
+
+    # ------------------------------------------------------------------ optimal_deviations, resolution loop
+    dev_f = struct_fields("DeviationInfo", "regret.rs")
+    fn = mir.Fn("od", fns["optimal_deviations"])
+    pops = [b for b, (_, t, _) in fn.blocks.items() if "Vec::<usize>::pop(" in t]
+    if len(pops) != 1 or not dev_f or set(dev_f) != {"future_nodes", "prob_nodes", "max_utility"}:
+        res["infra"].append(f"optimal_deviations: resolution loop / DeviationInfo not as expected ({len(pops)} pops, fields {dev_f})")
+    else:
+        F_FUT, F_NODES, F_MAX = dev_f.index("future_nodes"), dev_f.index("prob_nodes"), dev_f.index("max_utility")
+        term = fn.blocks[pops[0]][1]
+        item_local = re.match(r"(_\d+) = ", term).group(1)
+        nxt = re.search(r"return: (bb\d+)", term).group(1)
+        ex = mir.Executor(fn, stops={pops[0]: "continue"}, max_visits=UNROLL, max_paths=200000)
+        rpaths = ex.run(entry=nxt)
+        if ex.unknown:
+            res["infra"].append(f"optimal_deviations (resolution loop): {sorted(set(ex.unknown))[:3]}")
+        INFO = ("field", ("downcast", ("sym", f"od:{item_local}"), "Some"), 0)
+        TABLE = ("sym", "od:_5")
+
+        def rooted(t, base):
+            while isinstance(t, tuple) and t[0] == "field":
+                t = t[1]
+            return t == base
+
+        def slot(t, idx, field):
+            """t == infosets[idx].field (the boxed slice is read through pointer fields)"""
+            return (isinstance(t, tuple) and t[0] == "field" and t[2] == field and t[1][0] == "index" and rooted(t[1][1], TABLE) and t[1][2] == idx)
+        for p in rpaths:
+            n_paths += 1
+            if p.label == "return":
+                r = p.env.get("_0")
+                ok = (isinstance(r, tuple) and r[0] == "call" and r[1].startswith("next_infoset_search::<PLAYER_ONE") and r[2][0] == ("sym", "od:_1") and rooted(r[2][2], TABLE)
+                      and r[2][3] == ("sym", "od:_2") and r[2][4] == ("sym", "od:_4"))
+                structural.append(("ev-res-return", "when every infoset is resolved the best-response value is the continuation value of the root (same evaluated player, same tables)", ok, repr(r)[:200]))
+                continue
+            why = []
+            takes = [c for c in p.calls if c[0].startswith("std::mem::take::<Vec<(&Player, f64)>>")]
+            if not (len(takes) == 1 and slot(takes[0][1][0], INFO, F_NODES)):
+                why.append("the nodes resolved are not those recorded for the popped infoset")
+                structural.append(("ev-res-nodes", "an infoset is resolved over exactly the nodes recorded for it", False, "; ".join(why)))
+                continue
+            nodes = takes[0][2]
+            sums = [c for c in p.calls if "as Iterator>::sum::<f64" in c[0]]
+            tot = sums[0][2] if len(sums) == 1 else None
+            clo = None
+            if tot is not None:
+                mp = sums[0][1][0]
+                if mp[0] == "call" and "as Iterator>::map::<" in mp[1] and nodes == _inner_vec(mp[2][0]) and mp[2][1][0] == "closure":
+                    clo = mp[2][1][1]
+            if clo is None:
+                why.append("the total reach is not the sum over the infoset's nodes")
+            else:
+                body = next((v for k_, v in fns.items() if k_.startswith("optimal_deviations::{closure#") and "{closure@" + clo + "}" in v.split("\n", 1)[0]), None)
+                cps = mir.Executor(mir.Fn("c", body), max_visits=2).run() if body else []
+                if not (len(cps) == 1 and cps[0].env.get("_0") == ("field", ("sym", "c:_2"), 1)):
+                    why.append("the summed quantity is not each node's reach")
+            structural.append(("ev-res-total-reach", "the total reach of an infoset is the sum of the reach of its recorded nodes", not why, "; ".join(why)))
+            # previous infoset bookkeeping
+            why = []
+            prevs = [c for c in p.calls if "PlayerInfoset>::prev_infoset" in c[0]]
+            if not (len(prevs) == 1 and prevs[0][1] == [("index", ("sym", "od:_3"), INFO)]):
+                why.append("the previous infoset looked up is not that of the popped infoset")
+            else:
+                has_prev = any(s_ == ("discr", prevs[0][2]) and d_ == ("eq", "1") for s_, d_ in p.cond)
+                prev = ("field", ("downcast", prevs[0][2], "Some"), 0)
+                decs = [x for x in p.stores if isinstance(x[1], tuple) and x[1][0] == "op" and x[1][1] in ("Sub", "SubWithOverflow")]
+                qpush = [c for c in p.calls if c[0] == "Vec::<usize>::push"]
+                if not has_prev:
+                    if decs or qpush:
+                        why.append("bookkeeping without a previous infoset")
+                else:
+                    lens = [c for c in p.calls if c[0] == "Vec::<(&Player, f64)>::len" and c[1] == [nodes]]
+                    okd = len(decs) == 1 and len(lens) == 1 and decs[0][1][3] == lens[0][2]
+                    if okd:
+                        m = re.match(r"\(\(\*(_\d+)\)\[(_\d+)\]\.(\d+): ", decs[0][0][1]) if decs[0][0][0] == "mutref" else None
+                        okd = bool(m) and int(m.group(3)) == F_FUT and p.env.get(m.group(2)) == prev and decs[0][1][2] == decs[0][0]
+                    if not okd:
+                        why.append("the pending count of the previous infoset is not decreased by the number of nodes just resolved")
+                    eqs = [(s_, d_) for s_, d_ in p.cond if isinstance(s_, tuple) and s_[0] == "call" and "as PartialEq>::eq" in s_[1] and slot(s_[2][0], prev, F_FUT) and s_[2][1] == ("const", "0_usize")]
+                    if len(eqs) != 1:
+                        why.append("readiness of the previous infoset is not `pending count == 0`")
+                    else:
+                        ready = eqs[0][1] != ("eq", "0")
+                        if ready != (len(qpush) == 1 and qpush[0][1][1] == prev) or (not ready and qpush):
+                            why.append("the previous infoset is queued exactly when its pending count reaches zero: violated")
+            structural.append(("ev-res-pending", "resolving an infoset decreases the pending count of its previous infoset by its number of nodes and queues that infoset exactly when the count reaches 0", not why, "; ".join(why)))
+            # accumulation of the continuation values
+            why = []
+            fe = [c for c in p.calls if c[0].startswith("std::vec::from_elem::<f64>")]
+            if not (len(fe) == 1 and fe[0][1] == [("const", "0f64"), ("call", "<impl PlayerInfoset as PlayerInfoset>::num_actions", [("index", ("sym", "od:_3"), INFO)])]):
+                why.append("per-action values do not start at 0 with one slot per action of the infoset")
+            node_elems = [("field", ("downcast", c[2], "Some"), 0) for c in p.calls if c[0] == "<std::vec::IntoIter<(&Player, f64)> as Iterator>::next"
+                          and any(s_ == ("discr", c[2]) and d_ == ("eq", "1") for s_, d_ in p.cond)]
+            acc = [x for x in p.stores if isinstance(x[1], tuple) and x[1][0] == "op" and x[1][1] == "Add"]
+            nis = [c for c in p.calls if c[0].startswith("next_infoset_search::<PLAYER_ONE")]
+            if len(acc) != len(nis):
+                why.append(f"{len(nis)} continuation values, {len(acc)} accumulations")
+            for x, c in zip(acc, nis):
+                ref, val = x[0], x[1]
+                elem = ref[1] if ref[0] == "field" else None
+                a = c[1]
+                okc = (elem is not None and ref == ("field", elem, 1) and a[0] == ("field", elem, 0) and rooted(a[2], TABLE) and a[3] == ("sym", "od:_2") and a[4] == ("sym", "od:_4")
+                       and val[2] == ref and any(is_mul(val[3], c[2], ("field", ne, 1)) for ne in node_elems))
+                if not okc:
+                    why.append(f"an action's value is not increased by (continuation value of ITS child) x (reach of the node): {repr(val)[:140]}")
+                    break
+            structural.append(("ev-res-accumulate", "each action's value is the sum over the infoset's nodes of reach x continuation value of that action's child", not why, "; ".join(why)))
+            # the resolved value
+            why = []
+            fin = [x for x in p.stores if x[3].startswith("((*") and isinstance(x[0], tuple) and x[0][0] == "index"]
+            okf = False
+            if len(fin) == 1 and rooted(fin[0][0][1], TABLE) and fin[0][0][2] == INFO and re.search(r"\.%d: f64\)" % F_MAX, fin[0][3]):
+                v = fin[0][1]
+                okf = (v[0] == "op" and v[1] == "Div" and v[3] == tot and v[2][0] == "call" and v[2][1].startswith("Option::<f64>::unwrap") and v[2][2][0][0] == "call"
+                       and "reduce::<" in v[2][2][0][1] and "f64>::max" in v[2][2][0][1])
+            if not okf:
+                why.append("the infoset's value is not max over actions / total reach: " + (repr(fin[0][1])[:160] if fin else "no store"))
+            structural.append(("ev-res-value", "the value resolved for an infoset is (max over its actions of the accumulated value) / (total reach of the infoset)", okf, "; ".join(why)))
+        # which infosets start in the queue
+        fk = [k_ for k_, v in fns.items() if k_.startswith("optimal_deviations::{closure#") and "-> bool" in v.split("\n", 1)[0]]
+        okq, whyq = False, "filter closure not found"
+        if len(fk) == 1:
+            cps = mir.Executor(mir.Fn("c", fns[fk[0]]), max_visits=2).run()
+            dev = ("field", ("sym", "c:_2"), 1)
+            okq = len(cps) == 2
+            for cp in cps:
+                if len(cp.cond) != 1:
+                    okq = False
+                    continue
+                (sc, d), = cp.cond
+                if sc != ("op", "Eq", ("field", dev, F_FUT), ("const", "0_usize")):
+                    okq = False
+                if d == ("eq", "0") and cp.env.get("_0") != ("const", "false"):
+                    okq = False
+                if d != ("eq", "0") and cp.env.get("_0") != ("un", "Not", ("call", "Vec::<(&Player, f64)>::is_empty", [("field", dev, F_NODES)])):
+                    okq = False
+            whyq = str([(repr(cp.cond)[:120], repr(cp.env.get("_0"))[:80]) for cp in cps])
+        structural.append(("ev-res-start", "resolution starts from the infosets with no pending later node and at least one recorded node", okq, whyq))
 
     # ------------------------------------------------------------------ regret (acyclic)
     fn = mir.Fn("regret", fns["regret"])
@@ -367,37 +519,56 @@ def run(prop, tier, mir_text=None):
         structural.append(("ev-regret-tables", "each player's best response is searched over THAT player's infosets against the OTHER player's strategy, from the same root", ok_args,
                            f"{[repr(c[1])[:160] for c in (one, two) if c]}"))
         if ok_args and r[0] == "tuple" and len(r[1]) == 2 and r[1][1][0] == "tuple":
-            ctx = smt.Ctx({}, {})
-            ctx.RET = dict(ctx.RET)
-            ctx.RET.update({"expected::<impl ChanceInfoset, impl AsRef<[f64]>>": "F"})
-            names = {repr(e_call[2]): ("sym", "u"), repr(one[2]): ("sym", "b1"), repr(two[2]): ("sym", "b2")}
-            for v in names.values():
-                ctx.sym_sorts[v[1]] = "F"
+            def clamp(t, a, b, op):
+                return (isinstance(t, tuple) and t[0] == "call" and t[1].endswith("f64>::max") and t[2][1] == ("const", "0f64") and t[2][0][0] == "op" and t[2][0][1] == op
+                        and ((t[2][0][2], t[2][0][3]) == (a, b) or (op == "Add" and (t[2][0][2], t[2][0][3]) == (b, a))))
+            plain = r[1][0] == e_call[2] and clamp(r[1][1][1][0], one[2], e_call[2], "Sub") and clamp(r[1][1][1][1], two[2], e_call[2], "Add")
+            if plain:
+                structural.append(("ev-regret-formula", "utility = expected value; regret one = max(best one - utility, 0); regret two = max(best two (own utility) + utility, 0)", True, ""))
+            else:
+                # a rewritten formula: z3 decides whether it is the same function of (utility, best one, best two)
+                ctx = smt.Ctx({}, {})
+                ctx.RET = dict(ctx.RET)
+                names = {repr(e_call[2]): ("sym", "u"), repr(one[2]): ("sym", "b1"), repr(two[2]): ("sym", "b2")}
+                for v in names.values():
+                    ctx.sym_sorts[v[1]] = "F"
 
-            def sub(t):
-                if isinstance(t, tuple):
-                    rr = names.get(repr(t))
-                    return rr if rr is not None else tuple(sub(x) for x in t)
-                if isinstance(t, list):
-                    return [sub(x) for x in t]
-                return t
-            try:
-                u, _ = ctx.tr(sub(r[1][0]), "F")
-                r1, _ = ctx.tr(sub(r[1][1][1][0]), "F")
-                r2, _ = ctx.tr(sub(r[1][1][1][1]), "F")
-                ax = [f"(forall ((x {smt.FP}) (y {smt.FP})) (= ({k} x y) (fp.max x y)))" for k in ctx.decls if k.startswith("f_") and "f64___max_FF_F" in k]
-                zero = "((_ to_fp 11 53) RNE 0.0)"
-                dom = ["(not (fp.isNaN s_u))", "(not (fp.isNaN s_b1))", "(not (fp.isNaN s_b2))"]
-                queries.append(("ev-regret-utility", "the reported utility is the expected value", ctx, ax + [f"(not (= {u} s_u))"]))
-                queries.append(("ev-regret-one", "player one's regret = max(best response value - utility, 0) (every non-NaN pair)", ctx, ax + dom + [f"(not (fp.eq {r1} (fp.max (fp.sub RNE s_b1 s_u) {zero})))"]))
-                queries.append(("ev-regret-two", "player two's regret = max(best response value (own utility) + utility, 0) (every non-NaN pair)", ctx, ax + dom + [f"(not (fp.eq {r2} (fp.max (fp.add RNE s_b2 s_u) {zero})))"]))
-            except Exception as e:  # noqa: BLE001
-                res["infra"].append(f"regret: cannot translate the result: {e}")
+                def sub(t):
+                    if isinstance(t, tuple):
+                        rr = names.get(repr(t))
+                        return rr if rr is not None else tuple(sub(x) for x in t)
+                    if isinstance(t, list):
+                        return [sub(x) for x in t]
+                    return t
+                try:
+                    u, _ = ctx.tr(sub(r[1][0]), "F")
+                    r1, _ = ctx.tr(sub(r[1][1][1][0]), "F")
+                    r2, _ = ctx.tr(sub(r[1][1][1][1]), "F")
+                    ax = []
+                    for k in [k for k in ctx.decls if k.startswith("f_") and "f64___max_FF_F" in k]:
+                        u, r1, r2 = (x.replace("(" + k + " ", "(fp.max ") for x in (u, r1, r2))     # f64::max is IEEE maxNum
+                    zero = "((_ to_fp 11 53) RNE 0.0)"
+                    # the formula is a fixed add/sub/max expression of three floats: it is compared for ALL non-NaN values of a narrower
+                    # IEEE format (binary16; the same expression, z3 on all doubles times out): "HALF" marks the query for that rewrite
+                    dom = ["(not (fp.isNaN s_u))", "(not (fp.isNaN s_b1))", "(not (fp.isNaN s_b2))"]
+                    for n in ("s_u", "s_b1", "s_b2"):
+                        ctx.sym(n[2:], "F")
+                    queries.append(("ev-regret-formula", "utility = expected value; regret one = max(best one - utility, 0); regret two = max(best two + utility, 0) (rewritten formula: equal for every non-NaN binary16 triple)", ctx,
+                                    ax + dom + ["HALF", f"(or (not (= {u} s_u)) (not (fp.eq {r1} (fp.max (fp.sub RNE s_b1 s_u) {zero}))) (not (fp.eq {r2} (fp.max (fp.add RNE s_b2 s_u) {zero}))))"]))
+                except Exception as e:  # noqa: BLE001
+                    res["infra"].append(f"regret: cannot translate the result: {e}")
         else:
             structural.append(("ev-regret-shape", "regret returns (utility, [regret one, regret two])", False, repr(r)[:200]))
 
     # ------------------------------------------------------------------ discharge
+    half = [q for q in queries if "HALF" in q[3]]
+    queries = [q for q in queries if "HALF" not in q[3]]
     results = smt.solve_batch(queries, "z3") if queries else {"verdicts": [], "time": 0.0}
+    for q in half:
+        r_, out_, secs_, txt_ = smt.solve(q[2], [a for a in q[3] if a != "HALF"], "z3", timeout=120, rewrite=lambda t: t.replace("(_ FloatingPoint 11 53)", "(_ FloatingPoint 5 11)").replace("to_fp 11 53", "to_fp 5 11"))
+        queries.append(q)
+        results["verdicts"].append((r_ if r_ in ("sat", "unsat") else "error", out_[:300], txt_))
+        results["time"] += secs_
     res["solver_s"] = results["time"]
     fails = {}
     for (key_, desc, _, _), (rr, out, txt) in zip(queries, results["verdicts"]):
@@ -420,7 +591,7 @@ def run(prop, tier, mir_text=None):
     res["units"].append({
         "harness": "mirsmt:regret.rs", "role": "regret() and one iteration of each work-list loop of the evaluator from the library's MIR: per-step recurrences of expected value and best-response search",
         "functions": ["regret::regret", "regret::expected (one loop iteration)", "regret::next_infoset_search (one loop iteration)", "regret::optimal_deviations (one iteration of the reach-collection loop)"],
-        "bounds": f"{n_paths} complete iteration paths; inner for-loops unrolled <= 2 children; popped element, accumulator and tables arbitrary; f64 in the FP theory for the skip rule and the clamp",
+        "bounds": f"{n_paths} complete iteration paths; inner for-loops unrolled <= {UNROLL - 1} children; popped element, accumulator and tables arbitrary; f64 in the FP theory for the skip rule and the clamp",
         "stubs": ["Vec, slice iterators, zip, the infoset tables and trait accessors are uninterpreted"], "assumes": [],
         "verdict": "counterexample" if fails else "holds", "cbmc_checks": len(queries) + len(structural), "obligations_proved": len(res["obligations"]),
         "covers_satisfied": [f"{n_paths} iteration paths", f"obligation kinds: {sorted(set(o[1] for o in res['obligations']))}"],
